@@ -183,6 +183,14 @@ def run_scenario(line):
                   max_steps=int(a.get("steps", 40000)))
     if sch.policy == "pct":
         sch.change_points = {rng.randrange(1, 3000) for _ in range(int(a.get("depth", 3)))}
+    if sch.policy == "hold":
+        # adversarial for hand-offs: a publisher is parked at a chosen line inside _packet_queue (or publish) until
+        # every other thread is blocked - the network thread in select() - and only then goes on
+        sch.policy = "random"
+        fn = a.get("holdfn", rng.choice(["_packet_queue", "_packet_queue", "_packet_queue", "publish", "_mid_generate"]))
+        k = int(a["holdk"]) if "holdk" in a else (0 if rng.random() < 0.25 else rng.randint(8, 14) if fn == "_packet_queue" else rng.randint(1, 12))
+        sch.hold = ("pub", fn, k)
+        sch.lazy_loop = a.get("lazy", "0") == "1"
     S.SLock.SCHED = sch
     w.sched = sch
     br = AutoBroker(w, proto, int(a.get("drop", "0")))
@@ -332,6 +340,14 @@ def run_scenario(line):
     LogDeque.EV = None
     WORLD.EVHOOK = None
     events = list(sch.events)
+    # threads that wrote to the socket themselves after the network thread had exited (direct loop_write())
+    post_exit_writers = set()
+    _seen_exit = False
+    for e in events:
+        if e[0] == "wk 0 exit":
+            _seen_exit = True
+        elif _seen_exit and e[0].startswith("wk ") and e[0].split()[2] == "send":
+            post_exit_writers.add(e[0].split()[1])
     # the hand-off model covers the time during which the loop_start() thread is the writer: once it has exited, a
     # publish() still in progress writes directly (`_thread is None`), which is not replayed
     for i, e in enumerate(events):
@@ -360,6 +376,7 @@ def run_scenario(line):
         "first_fresh": {str(k): v for k, v in first_sent.items()},
         "clock_advanced": w.clock.ms - 1_000_000,
         "model_mismatch": mismatch,
+        "post_exit_writers": len(post_exit_writers),
         "sched_races": sch.races[:3],
         "nevents": len(events),
     }
@@ -378,7 +395,11 @@ def check(obs, line):
         hits.append(("mids-not-distinct", f"returned mids {mids}"))
     for cn, pk in obs["wire"].items():
         if any(p[0] == "MALFORMED" for p in pk):
-            hits.append(("wire-corrupt", f"connection {cn}: a packet on the wire is not well-formed: {pk}"))
+            if obs.get("post_exit_writers", 0) >= 2:
+                hits.append(("wire-corrupt-after-loop-exit", f"connection {cn}: after the network thread exited with the socket still open, "
+                             f"{obs['post_exit_writers']} application threads wrote their packets directly and concurrently; the bytes interleaved: {pk}"))
+            else:
+                hits.append(("wire-corrupt", f"connection {cn}: a packet on the wire is not well-formed: {pk}"))
         if pk and pk[0][0] != "CONNECT":
             if obs.get("first_fresh", {}).get(str(cn), True):
                 # queued after reconnect() cleared the queue, ahead of CONNECT: another thread got in between
@@ -429,9 +450,17 @@ class ThreadStream:
     def gen(self, rng, tier):
         case = []
         for _ in range(2 if tier == "quick" else 6):
+            if rng.random() < 0.2:
+                # hand-off probe: one publisher is parked at the k-th line of _packet_queue until everything else is
+                # blocked, and the network thread only runs when no unparked publisher can (it comes round late): the
+                # window between any two lines of the queueing code is held open across a full pass of the network loop
+                case.append(f"thr seed={rng.randrange(10**6)} policy=hold holdfn=_packet_queue holdk={rng.randint(1, 14)} lazy=1 sw=0.5 "
+                            f"msgs={rng.choice(['0,0;0,0', '0;0;0', '0,1;0,0', '1;0,0', '0,0'])} N={rng.choice([1, 20])} early=0 "
+                            f"proto={rng.choice([4, 5])} conn=sync drop=0 part=0")
+                continue
             npub = rng.choice([1, 2, 2, 3])
             msgs = ";".join(",".join(str(rng.choice([0, 1, 2])) for _ in range(rng.randint(1, 3))) for _ in range(npub))
-            case.append(f"thr seed={rng.randrange(10**6)} policy={rng.choice(['random', 'random', 'pct'])} sw={rng.choice(['0.1', '0.3', '0.6'])} "
+            case.append(f"thr seed={rng.randrange(10**6)} policy={rng.choice(['random', 'random', 'pct', 'hold', 'hold'])} sw={rng.choice(['0.1', '0.3', '0.6'])} "
                         f"msgs={msgs} N={rng.choice([1, 2, 20])} early={int(rng.random() < 0.3)} proto={rng.choice([4, 5])} "
                         f"conn={rng.choice(['sync', 'async'])} drop={rng.choice([0, 0, 1, 2, 3])} part={rng.choice([0, 0, 3, 9])}")
         return case
